@@ -153,51 +153,28 @@ theorem fetchOutmost_fail_shape (M : Module) (f : Nat) (x : Ex) (h : fetchOutmos
     · exact Or.inl ⟨n, rfl⟩
     · exact Or.inr ⟨r, hx, a, rfl⟩
 
-theorem fetchMarked_tag {M : Module} {x : Ex} {m : Bool} {g : OTag} (h : fetchMarked M x m = .tag g) :
-    ∀ g', HasOuter M x g' ↔ g' = g := by
-  unfold fetchMarked at h
-  split at h
-  · cases h
-  · exact fetchOutmost_tag M _ _ _ h
-
-theorem fetchMarked_fail_shape {M : Module} {x : Ex} {m : Bool} (h : fetchMarked M x m = .fail) :
-    (∃ n, x = .ty (.ref none n)) ∨ (∃ r hx a, x = .ty (.constr none .choice r hx a)) := by
-  unfold fetchMarked at h
-  split at h
-  · rename_i hc
-    simp at hc
-    cases x with
-    | ext => simp [isUntaggedRef] at hc
-    | ty t =>
-      cases t with
-      | ref g n => cases g with
-        | none => exact Or.inl ⟨n, rfl⟩
-        | some _ => simp [isUntaggedRef] at hc
-      | _ => simp [isUntaggedRef] at hc
-  · exact fetchOutmost_fail_shape M _ _ h
-
 /-! ### `classify` -/
 
-theorem classify_fail_a {M : Module} {a b : Ex} {ma mb : Bool}
-    (hf : fetchMarked M a ma = .fail) (hb : fetchMarked M b mb ≠ .loop) :
-    classify M a ma b mb = classifyA a (fetchMarked M b mb) b := by
+theorem classify_fail_a {M : Module} {a b : Ex}
+    (hf : fetchOutmost M (fuel M) a = .fail) (hb : fetchOutmost M (fuel M) b ≠ .loop) :
+    classify M a b = classifyA a (fetchOutmost M (fuel M) b) b := by
   unfold classify
   rw [hf]
-  cases hb' : fetchMarked M b mb with
+  cases hb' : fetchOutmost M (fuel M) b with
   | loop => exact absurd hb' hb
   | tag y => rfl
   | fail => rfl
 
-theorem classify_tag_a {M : Module} {a b : Ex} {ma mb : Bool} {x : OTag}
-    (hf : fetchMarked M a ma = .tag x) :
-    classify M a ma b mb =
-      match fetchMarked M b mb with
+theorem classify_tag_a {M : Module} {a b : Ex} {x : OTag}
+    (hf : fetchOutmost M (fuel M) a = .tag x) :
+    classify M a b =
+      match fetchOutmost M (fuel M) b with
       | .loop => .loop
       | .tag y => .both x y
       | .fail => classifyB .fail b := by
   unfold classify
   rw [hf]
-  cases fetchMarked M b mb <;> rfl
+  cases fetchOutmost M (fuel M) b <;> rfl
 
 theorem classifyB_ne {rb : Fetch} {b : Ex} :
     (∀ n, classifyB rb b ≠ .followA n) ∧ (∀ r h ad, classifyB rb b ≠ .choiceA r h ad) ∧
@@ -205,54 +182,77 @@ theorem classifyB_ne {rb : Fetch} {b : Ex} :
   unfold classifyB
   refine ⟨?_, ?_, ?_, ?_⟩ <;> intros <;> split <;> simp
 
-theorem classify_followA {M : Module} {a b : Ex} {ma mb : Bool} {n : String}
-    (h : classify M a ma b mb = .followA n) : a = .ty (.ref none n) := by
-  cases hfa : fetchMarked M a ma with
+theorem classify_followA {M : Module} {a b : Ex} {n : String}
+    (h : classify M a b = .followA n) : a = .ty (.ref none n) := by
+  cases hfa : fetchOutmost M (fuel M) a with
   | loop => unfold classify at h; rw [hfa] at h; simp at h
   | tag x =>
     rw [classify_tag_a hfa] at h
-    cases hb : fetchMarked M b mb <;> rw [hb] at h <;> simp at h
+    cases hb : fetchOutmost M (fuel M) b <;> rw [hb] at h <;> simp at h
     exact absurd h (classifyB_ne.1 n)
   | fail =>
-    by_cases hb : fetchMarked M b mb = .loop
+    by_cases hb : fetchOutmost M (fuel M) b = .loop
     · unfold classify at h; rw [hfa, hb] at h; simp at h
     · rw [classify_fail_a hfa hb] at h
-      rcases fetchMarked_fail_shape hfa with ⟨n', e⟩ | ⟨r, hx, ad, e⟩
+      rcases fetchOutmost_fail_shape M _ _ hfa with ⟨n', e⟩ | ⟨r, hx, ad, e⟩
       · subst e; simp [classifyA] at h; subst h; rfl
       · subst e; simp [classifyA] at h
 
-theorem classify_choiceA {M : Module} {a b : Ex} {ma mb : Bool} {r : List Comp} {hx : Bool}
-    {ad : List Comp} (h : classify M a ma b mb = .choiceA r hx ad) :
+theorem classify_choiceA {M : Module} {a b : Ex} {r : List Comp} {hx : Bool}
+    {ad : List Comp} (h : classify M a b = .choiceA r hx ad) :
     a = .ty (.constr none .choice r hx ad) := by
-  cases hfa : fetchMarked M a ma with
+  cases hfa : fetchOutmost M (fuel M) a with
   | loop => unfold classify at h; rw [hfa] at h; simp at h
   | tag x =>
     rw [classify_tag_a hfa] at h
-    cases hb : fetchMarked M b mb <;> rw [hb] at h <;> simp at h
+    cases hb : fetchOutmost M (fuel M) b <;> rw [hb] at h <;> simp at h
     exact absurd h (classifyB_ne.2.1 r hx ad)
   | fail =>
-    by_cases hb : fetchMarked M b mb = .loop
+    by_cases hb : fetchOutmost M (fuel M) b = .loop
     · unfold classify at h; rw [hfa, hb] at h; simp at h
     · rw [classify_fail_a hfa hb] at h
-      rcases fetchMarked_fail_shape hfa with ⟨n', e⟩ | ⟨r', hx', ad', e⟩
+      rcases fetchOutmost_fail_shape M _ _ hfa with ⟨n', e⟩ | ⟨r', hx', ad', e⟩
       · subst e; simp [classifyA] at h
       · subst e; simp [classifyA] at h; obtain ⟨rfl, rfl, rfl⟩ := h; rfl
 
-theorem classify_both {M : Module} {a b : Ex} {ma mb : Bool} {x y : OTag}
-    (h : classify M a ma b mb = .both x y) :
-    fetchMarked M a ma = .tag x ∧ fetchMarked M b mb = .tag y := by
-  cases hfa : fetchMarked M a ma with
+theorem classify_both {M : Module} {a b : Ex} {x y : OTag}
+    (h : classify M a b = .both x y) :
+    fetchOutmost M (fuel M) a = .tag x ∧ fetchOutmost M (fuel M) b = .tag y := by
+  cases hfa : fetchOutmost M (fuel M) a with
   | loop => unfold classify at h; rw [hfa] at h; simp at h
   | tag x' =>
     rw [classify_tag_a hfa] at h
-    cases hb : fetchMarked M b mb <;> rw [hb] at h <;> simp at h
+    cases hb : fetchOutmost M (fuel M) b <;> rw [hb] at h <;> simp at h
     · exact ⟨by rw [h.1], by rw [h.2]⟩
     · exact absurd h (classifyB_ne.2.2.1 x y)
   | fail =>
-    by_cases hb : fetchMarked M b mb = .loop
+    by_cases hb : fetchOutmost M (fuel M) b = .loop
     · unfold classify at h; rw [hfa, hb] at h; simp at h
     · rw [classify_fail_a hfa hb] at h
-      rcases fetchMarked_fail_shape hfa with ⟨n', e⟩ | ⟨r', hx', ad', e⟩
+      rcases fetchOutmost_fail_shape M _ _ hfa with ⟨n', e⟩ | ⟨r', hx', ad', e⟩
+      · subst e; simp [classifyA] at h
+      · subst e; simp [classifyA] at h
+
+/-- the final `return 0` is taken only when neither side has any outermost tag to offer: in this
+    algebra a failed fetch means "untagged reference or untagged CHOICE", and both are looked into -/
+theorem classify_done {M : Module} {a b : Ex} (h : classify M a b = .done) : False := by
+  cases hfa : fetchOutmost M (fuel M) a with
+  | loop => unfold classify at h; rw [hfa] at h; simp at h
+  | tag x =>
+    rw [classify_tag_a hfa] at h
+    cases hb : fetchOutmost M (fuel M) b with
+    | loop => rw [hb] at h; simp at h
+    | tag y => rw [hb] at h; simp at h
+    | fail =>
+      rw [hb] at h; simp only at h
+      rcases fetchOutmost_fail_shape M _ _ hb with ⟨n', e⟩ | ⟨r', hx', ad', e⟩
+      · subst e; simp [classifyB] at h
+      · subst e; simp [classifyB] at h
+  | fail =>
+    by_cases hb : fetchOutmost M (fuel M) b = .loop
+    · unfold classify at h; rw [hfa, hb] at h; simp at h
+    · rw [classify_fail_a hfa hb] at h
+      rcases fetchOutmost_fail_shape M _ _ hfa with ⟨n', e⟩ | ⟨r', hx', ad', e⟩
       · subst e; simp [classifyA] at h
       · subst e; simp [classifyA] at h
 
@@ -532,69 +532,55 @@ theorem comps_rel {M : Module} {r a : List Comp} {h : Bool} {ss : List Slot}
 
 /-! ### `_asn1f_compare_tags` -/
 
-theorem CR.or_cut_false {x y : CR} (h : (x.or y).cut = false) : x.cut = false ∧ y.cut = false := by
-  simpa [CR.or] using h
-
-theorem anyClash_spec : ∀ (l : List (Option CR)) (r : CR), anyClash l = some r → r.cut = false →
-    (r.clash = true → ∃ rx, some rx ∈ l ∧ rx.clash = true ∧ rx.cut = false) ∧
-    (r.clash = false → ∀ x ∈ l, ∃ rx, x = some rx ∧ rx.clash = false ∧ rx.cut = false) := by
+theorem anyClash_spec : ∀ (l : List (Option Bool)) (r : Bool), anyClash l = some r →
+    (r = true → some true ∈ l) ∧ (r = false → ∀ x ∈ l, x = some false) := by
   intro l
   induction l with
   | nil =>
-    intro r h _
+    intro r h
     simp [anyClash] at h; subst h
-    simp [CR.no]
+    simp
   | cons x rest ih =>
-    intro r h hc
+    intro r h
     cases x with
     | none => simp [anyClash] at h
     | some r0 =>
       unfold anyClash at h
-      by_cases h0 : r0.clash = true
-      · rw [if_pos h0] at h; simp at h; subst h
-        refine ⟨fun _ => ⟨r0, List.mem_cons_self, h0, hc⟩, fun hf => ?_⟩
-        rw [h0] at hf; cases hf
-      · rw [if_neg h0] at h
-        cases hr : anyClash rest with
-        | none => rw [hr] at h; simp at h
-        | some r' =>
-          rw [hr] at h; simp at h; subst h
-          obtain ⟨c0, c'⟩ := CR.or_cut_false hc
-          have h0' : r0.clash = false := by simpa using h0
-          obtain ⟨ih1, ih2⟩ := ih r' hr c'
-          constructor
-          · intro hcl
-            have : r'.clash = true := by simpa [CR.or, h0'] using hcl
-            obtain ⟨rx, hm, h1, h2⟩ := ih1 this
-            exact ⟨rx, List.mem_cons_of_mem _ hm, h1, h2⟩
-          · intro hcl
-            have : r'.clash = false := by simpa [CR.or, h0'] using hcl
-            intro x hx
-            rcases List.mem_cons.1 hx with rfl | hx'
-            · exact ⟨r0, rfl, h0', c0⟩
-            · exact ih2 this x hx'
+      cases r0 with
+      | true =>
+        simp at h; subst h
+        exact ⟨fun _ => List.mem_cons_self, fun hf => by cases hf⟩
+      | false =>
+        simp at h
+        obtain ⟨ih1, ih2⟩ := ih r h
+        constructor
+        · intro hcl; exact List.mem_cons_of_mem _ (ih1 hcl)
+        · intro hcl x hx
+          rcases List.mem_cons.1 hx with rfl | hx'
+          · rfl
+          · exact ih2 hcl x hx'
 
 theorem Clash.symm {M : Module} {a b : Ex} : Clash M a b ↔ Clash M b a := by
   unfold Clash
   constructor <;> (rintro ⟨g, h1, h2⟩; exact ⟨g, h2, h1⟩)
 
-/-- **`_asn1f_compare_tags` is exact** whenever it neither ran out of fuel nor was answered by a
-    TM_RECURSION guard: it reports a clash iff the two outer-tag sets intersect. -/
-theorem compareTags_sound (M : Module) : ∀ (f : Nat) (a : Ex) (ma : Bool) (b : Ex) (mb : Bool) (r : CR),
-    compareTags M f a ma b mb = some r → r.cut = false → (r.clash = true ↔ Clash M a b) := by
+/-- **`_asn1f_compare_tags` is exact** whenever it did not run out of fuel: it reports a clash
+    iff the two outer-tag sets intersect. -/
+theorem compareTags_sound (M : Module) : ∀ (f : Nat) (a b : Ex) (r : Bool),
+    compareTags M f a b = some r → (r = true ↔ Clash M a b) := by
   intro f
   induction f with
-  | zero => intro a ma b mb r h; simp [compareTags] at h
+  | zero => intro a b r h; simp [compareTags] at h
   | succ f ih =>
-    intro a ma b mb r h hc
+    intro a b r h
     unfold compareTags at h
-    cases hs : classify M a ma b mb with
+    cases hs : classify M a b with
     | loop => rw [hs] at h; simp at h
     | both x y =>
       rw [hs] at h; simp at h; subst h
       obtain ⟨h1, h2⟩ := classify_both hs
-      have ha := fetchMarked_tag h1
-      have hb := fetchMarked_tag h2
+      have ha := fetchOutmost_tag M _ _ _ h1
+      have hb := fetchOutmost_tag M _ _ _ h2
       simp only [beq_iff_eq]
       unfold Clash outerTags
       constructor
@@ -607,13 +593,13 @@ theorem compareTags_sound (M : Module) : ∀ (f : Nat) (a : Ex) (ma : Bool) (b :
       cases hl : M.lookup n with
       | none =>
         rw [hl] at h; simp at h; subst h
-        simp only [CR.no, Bool.false_eq_true, false_iff]
+        simp only [Bool.false_eq_true, false_iff]
         rintro ⟨g, g1, _⟩
         obtain ⟨t', e, _⟩ := hasOuter_ref.1 g1
         rw [hl] at e; cases e
       | some t' =>
         rw [hl] at h; simp only at h
-        rw [ih _ _ _ _ r h hc]
+        rw [ih _ _ r h]
         unfold Clash outerTags
         constructor
         · rintro ⟨g, g1, g2⟩; exact ⟨g, hasOuter_ref.2 ⟨t', hl, g1⟩, g2⟩
@@ -630,33 +616,27 @@ theorem compareTags_sound (M : Module) : ∀ (f : Nat) (a : Ex) (ma : Bool) (b :
       | some ss =>
         rw [hcomps] at h; simp only at h
         have hrel := comps_rel hcomps
-        obtain ⟨s1, s2⟩ := anyClash_spec _ r h hc
+        obtain ⟨s1, s2⟩ := anyClash_spec _ r h
         constructor
         · intro hcl
-          obtain ⟨rx, hm, h1, h2⟩ := s1 hcl
-          obtain ⟨s, hs', e⟩ := List.mem_map.1 hm
-          have hcl' := (ih _ _ _ _ rx e h2).1 h1
+          obtain ⟨s, hs', e⟩ := List.mem_map.1 (s1 hcl)
+          have hcl' := (ih _ _ true e).1 rfl
           obtain ⟨s', hs'', hr⟩ := hrel.mem_left hs'
           obtain ⟨g, g1, g2⟩ := hcl'
           exact ⟨g, hasOuter_choice.2 ⟨s', hs'', (hr.2.hasOuter g).1 g1⟩, g2⟩
         · rintro ⟨g, g1, g2⟩
           obtain ⟨s', hs', g1'⟩ := hasOuter_choice.1 g1
           obtain ⟨s, hs'', hr⟩ := hrel.mem_right hs'
-          cases hcl : r.clash with
+          cases hcl : r with
           | true => rfl
           | false =>
-            obtain ⟨rx, e, h1, h2⟩ := s2 hcl _ (List.mem_map.2 ⟨s, hs'', rfl⟩)
-            have := (ih _ _ _ _ rx e h2).2 ⟨g, (hr.2.hasOuter g).2 g1', g2⟩
-            rw [h1] at this; cases this
-    | swapChoice =>
+            have e := s2 hcl _ (List.mem_map.2 ⟨s, hs'', rfl⟩)
+            have := (ih _ _ false e).2 ⟨g, (hr.2.hasOuter g).2 g1', g2⟩
+            cases this
+    | swap =>
       rw [hs] at h; simp only at h
-      rw [ih _ _ _ _ r h hc]; exact Clash.symm
-    | swapMark =>
-      rw [hs] at h; simp only at h
-      by_cases hm : (ma || mb) = true
-      · rw [if_pos hm] at h; simp at h; subst h; simp at hc
-      · rw [if_neg hm] at h
-        rw [ih _ _ _ _ r h hc]; exact Clash.symm
+      rw [ih _ _ r h]; exact Clash.symm
+    | done => exact (classify_done hs).elim
 
 /-! ### `asn1f_check_constr_tags_distinct` -/
 
@@ -669,65 +649,62 @@ def allOk (M : Module) (isSeq : Bool) : List Slot → Prop
   | [] => True
   | a :: rest => ((!isSeq || a.opt) = true → runOk M isSeq a rest) ∧ allOk M isSeq rest
 
-theorem checkRun_spec (M : Module) (isSeq : Bool) (v : Slot) : ∀ (rest : List Slot) (r : CR),
-    checkRun M isSeq v rest = some r → r.cut = false → (r.clash = false ↔ runOk M isSeq v rest) := by
+theorem checkRun_spec (M : Module) (isSeq : Bool) (v : Slot) : ∀ (rest : List Slot) (r : Bool),
+    checkRun M isSeq v rest = some r → (r = false ↔ runOk M isSeq v rest) := by
   intro rest
   induction rest with
-  | nil => intro r h _; simp [checkRun] at h; subst h; simp [runOk, CR.no]
+  | nil => intro r h; simp [checkRun] at h; subst h; simp [runOk]
   | cons nv rest ih =>
-    intro r h hc
+    intro r h
     unfold checkRun at h
-    cases hcmp : compareTags M (fuel M) v.ex false nv.ex false with
+    cases hcmp : compareTags M (fuel M) v.ex nv.ex with
     | none => rw [hcmp] at h; simp at h
     | some c =>
       rw [hcmp] at h; simp only at h
       unfold runOk
+      have h1 := compareTags_sound M _ _ _ _ hcmp
       by_cases hstop : (isSeq && !nv.opt) = true
       · rw [if_pos hstop] at h; simp at h; subst h
-        have := compareTags_sound M _ _ _ _ _ _ hcmp hc
-        rw [← this]; simp [hstop]
+        rw [← h1]; simp [hstop]
       · rw [if_neg hstop] at h
         cases hr : checkRun M isSeq v rest with
         | none => rw [hr] at h; simp at h
         | some r' =>
           rw [hr] at h; simp at h; subst h
-          obtain ⟨c1, c2⟩ := CR.or_cut_false hc
-          have h1 := compareTags_sound M _ _ _ _ _ _ hcmp c1
-          have h2 := ih r' hr c2
+          have h2 := ih r' hr
           have hstop' : (isSeq && !nv.opt) = false := by simpa using hstop
           rw [← h1, ← h2]
-          simp only [CR.or, Bool.or_eq_false_iff, hstop', forall_const]
+          simp only [Bool.or_eq_false_iff, hstop', forall_const]
           constructor
           · rintro ⟨a, b⟩; exact ⟨by simp [a], b⟩
           · rintro ⟨a, b⟩; exact ⟨by simpa using a, b⟩
 
-theorem checkDistinct_spec (M : Module) (isSeq : Bool) : ∀ (ss : List Slot) (r : CR),
-    checkDistinct M isSeq ss = some r → r.cut = false → (r.clash = false ↔ allOk M isSeq ss) := by
+theorem checkDistinct_spec (M : Module) (isSeq : Bool) : ∀ (ss : List Slot) (r : Bool),
+    checkDistinct M isSeq ss = some r → (r = false ↔ allOk M isSeq ss) := by
   intro ss
   induction ss with
-  | nil => intro r h _; simp [checkDistinct] at h; subst h; simp [allOk, CR.no]
+  | nil => intro r h; simp [checkDistinct] at h; subst h; simp [allOk]
   | cons v rest ih =>
-    intro r h hc
+    intro r h
     unfold checkDistinct at h
     cases hr : checkDistinct M isSeq rest with
     | none => rw [hr] at h; split at h <;> simp_all
     | some r' =>
       rw [hr] at h
-      cases hv : (if (!isSeq || v.opt) = true then checkRun M isSeq v rest else some CR.no) with
+      cases hv : (if (!isSeq || v.opt) = true then checkRun M isSeq v rest else some false) with
       | none => rw [hv] at h; simp at h
       | some c =>
         rw [hv] at h; simp at h; subst h
-        obtain ⟨c1, c2⟩ := CR.or_cut_false hc
-        have h2 := ih r' hr c2
+        have h2 := ih r' hr
         unfold allOk
         rw [← h2]
-        simp only [CR.or, Bool.or_eq_false_iff]
+        simp only [Bool.or_eq_false_iff]
         by_cases hcond : (!isSeq || v.opt) = true
         · rw [if_pos hcond] at hv
-          have h1 := checkRun_spec M isSeq v rest c hv c1
+          have h1 := checkRun_spec M isSeq v rest c hv
           rw [← h1]; simp [hcond]
         · rw [if_neg hcond] at hv; simp at hv; subst hv
-          simp [hcond, CR.no]
+          simp [hcond]
 
 theorem runOk_rel {M : Module} {isSeq : Bool} {a a' : Slot} (ha : SlotRel a a') :
     ∀ {l l' : List Slot}, AllRel SlotRel l l' → (runOk M isSeq a l ↔ runOk M isSeq a' l') := by
